@@ -517,7 +517,9 @@ def check_C05(run, replay):
                 "payoffs equal, a player without decisions, payoffs of magnitude 1e6) by a deterministic stride slice and "
                 "states the specified verdict (ThreadDecision); every point runs in a child process under a 30 s watchdog: "
                 "normal return or the documented error, every infoset a distribution, bounds non-negative numbers that are "
-                "infinite iff the budget is 0; distinct by lattice index; every point is non-trivial")
+                "infinite iff the budget is 0; plus the dynamic-range family (strategy exponents 50..1000 x budgets 1..1500 "
+                "x regret exponents down to -1000 x fallback weights on games with an infoset reached in the first "
+                "iteration only: the accumulators pass through the subnormal range); distinct by lattice index; every point is non-trivial")
     run.assumptions = ["|payoff| <= 1e6", "hang = no return within 30 s",
                        "usize::MAX/3 itself (65535 real threads in rayon) is not exercised: resource hazard for the sandbox"]
     if replay:
@@ -525,9 +527,15 @@ def check_C05(run, replay):
         absorb(run, rows, cases, mismatch_sig("solve"))
         return
     stride = 24989 if run.tier == "quick" else 997
-    res = tlc("MC_Lattice", env={"SLICE": run.seed % stride, "OF": stride, "NUMGAMES": 10}, timeout=3000)
+    res = tlc("MC_Lattice", env={"SLICE": run.seed % stride, "OF": stride, "NUMGAMES": 10, "FAMILY": "lattice"}, timeout=3000)
     run.add_tlc(res)
     recs = res.out("OUT")
+    # the dynamic-range family: exponents x budgets whose discount products sweep the subnormal range
+    rstride = 37 if run.tier == "quick" else 1
+    res2 = tlc("MC_Lattice", env={"SLICE": run.seed % rstride, "OF": rstride, "NUMGAMES": 10, "FAMILY": "range"}, timeout=3000)
+    run.add_tlc(res2)
+    recs = recs + [(i + 100000000, v) for (i, v) in res2.out("OUT")]
+    run.notes["points"] = {"lattice": len(res.out("OUT")), "range": len(res2.out("OUT"))}
     exp_path = run.path("lattice.exp.ndjson")
     write_ndjson(exp_path, [{"id": i, "exp": dict(v, seed=run.seed)} for (i, v) in recs])
     out_path = run.path("lattice.res.ndjson")
@@ -640,3 +648,66 @@ def check_C12(run, replay):
     run.notes["cases_with_exact_solver_trajectory"] = exact
     run.notes["classes"] = class_counts(rows)
     absorb(run, rows, cases, mismatch_sig("xform"))
+
+
+# ------------------------------------------------------------------------------------------ C10
+LEVELS["C10"] = "model_checking"
+
+
+def check_C10(run, replay):
+    run.rule = ("(a) sampler table: TLC enumerates every weight vector of length 1..4 over 0..MAXW and every variate j/(2T) "
+                "(all interval endpoints and midpoints), checks SampleInSet / InteriorUnique / NeverZero / Proportional on "
+                "Sampler.tla and each (weights, variate) is replayed into the production Multinomial sampler through the "
+                "hook (midpoints judged, exact endpoints must return an adjacent index); (b) traces: solves with LIVE "
+                "randomness and the hooks in observer mode - every method x {1,3(,2,8)} threads x zoo / shape / seeded "
+                "games with shared chance infosets - validated against Trace_Sample.tla: draw sites allowed by the method, "
+                "at most one draw per infoset and pass, every sampled node entered has a draw of this pass, the nodes entered "
+                "are exactly the tree that follows the drawn outcomes, chance draws made from the declared normalised "
+                "weights, player draws from the current strategy where it is known exactly, reset counters; (c) frequencies: "
+                "flat-payoff games with injected skewed strategies, 1000 draws per distribution tallied by TLC, chi-square "
+                "below the 1-1e-9 quantile; distinct = distinct table entries + distinct pass events")
+    run.assumptions = ["the one genuinely random test: false-alarm probability below 1e-9 per tested distribution (at most 12 per run)",
+                       "the alias-table sampler of rand_distr is observed statistically only",
+                       "at exact interval endpoints either adjacent index is admissible; endpoints of non-dyadic vectors are not judged"]
+    if replay:
+        d = replay_case(replay)
+        if "case" in d:
+            cases, rows = replay_pipeline(run, "sampler", d["case"])
+            absorb(run, rows, cases, mismatch_sig("sampler"))
+            return
+    maxw = 3 if run.tier == "quick" else 4
+    cases, rows = enumerate_pipeline(run, "MC_Sampler", "sampler", env={"MAXW": maxw}, timeout=3000, name="table")
+    run.exhaustive = True
+    run.notes["table"] = class_counts(rows)
+    absorb(run, rows, cases, mismatch_sig("sampler"))
+    trace = run.path("sample.ndjson")
+    n = 9 if run.tier == "quick" else 60
+    args = ["record", "sample", "--seed", run.seed, "--n", n, "--out", trace]
+    if run.tier == "thorough":
+        args += ["--thorough", "1"]
+    info = json.loads(harness(args, timeout=6000).strip().splitlines()[-1])
+    for f in info["failed"][:5]:
+        run.violation("sample:failed", {"event": f, "context": {"seed": run.seed, "n": n}})
+    from vlib import tlc_trace
+    ok, line, rec, res = tlc_trace("Trace_Sample", trace, timeout=6000)
+    run.add_tlc(res)
+    if not ok:
+        lines = open(trace).read().splitlines()
+        kind = (rec or {}).get("e", "?")
+        run.violation("sample:%s" % kind, {"trace_spec": "Trace_Sample", "first_unexplained_line": line, "record": rec,
+                                           "preceding_lines": lines[max(0, (line or 1) - 4):(line or 1) - 1][-3:],
+                                           "context": {"seed": run.seed, "n": n}})
+    run.traces += info["runs"]
+    run.evaluations += info["passes"]
+    tested = []
+    for (t, i, v) in res.records:
+        if t == "FREQ":
+            tested += v["tested"]
+    run.notes["frequency_tests"] = tested
+    run.notes["recorded"] = {k: v for k, v in info.items() if k != "failed"}
+    with open(trace) as f:
+        for ln in f:
+            if '"e":"pass"' in ln:
+                run.distinct.add(ln)
+                if '"draws":[]' not in ln:
+                    run.sample(json.loads(ln), limit=4)
